@@ -1,4 +1,5 @@
 import ZChain.Model.Reduce
+import ZChain.Generated.C38
 /-
 Model of the miner contract's view-change (DKG) phase machine:
 smartcontract/minersc/dkg.go (moveTo*, GetPhaseNode, setPhaseNode, createDKGMinersForContribute,
@@ -143,13 +144,23 @@ def moveToWait (s : State) : Bool :=
   | none => false
   | some g => hasPrevMinerIn s g && !(decide ((g.length : Int) < s.dkg.k))
 
+/-- table lookup as Go's map access. -/
+def lookup (t : List (Nat × String)) (p : Nat) : Option String := (t.find? fun e => e.1 = p).map (·.2)
+
+/-- the move function of a method name. -/
+def moveFnByName (name : String) (s : State) : Bool :=
+  if name = "moveToContribute" then moveToContribute s
+  else if name = "moveToShareOrPublish" then moveToShareOrPublish s
+  else if name = "moveToWait" then moveToWait s
+  else if name = "moveToStart" then true
+  else false
+
+/-- `moveFunctions[pn.Phase](balances, pn, gn)`: the table is `Generated/C38.moveFunctions`, regenerated from
+minersc.go on every run (the translator refuses a table without an entry for every phase). -/
 def moveFn (p : Phase) (s : State) : Bool :=
-  match p with
-  | 0 => moveToContribute s
-  | 1 => moveToShareOrPublish s
-  | 2 => moveToShareOrPublish s
-  | 3 => moveToWait s
-  | _ => true       -- Wait: moveToStart
+  match lookup ZChain.Generated.C38.moveFunctions p with
+  | some name => moveFnByName name s
+  | none => false
 
 /-! ### `reduceNodes` (models.go:872) -/
 
@@ -243,12 +254,17 @@ def createMagicBlockForWait (s : State) : Res State :=
           -- the DKG list itself is NOT saved here (dkg.go:576-580 are commented out)
           .ok { s with viewChange := mb.start, mpks := some [], gsos := some [], mb := some mb, keep := [] }
 
+def phaseFnByName (name : String) (s : State) : Res State :=
+  if name = "createDKGMinersForContribute" then createDKGMinersForContribute s
+  else if name = "widdleDKGMinersForShare" then widdleDKGMinersForShare s
+  else if name = "createMagicBlockForWait" then createMagicBlockForWait s
+  else .err
+
+/-- `if phaseFunc, ok := phaseFuncs[pn.Phase]; ok { err = phaseFunc(balances, gn) }` with the generated table. -/
 def phaseFn (p : Phase) (s : State) : Res State :=
-  match p with
-  | 0 => createDKGMinersForContribute s
-  | 1 => widdleDKGMinersForShare s
-  | 3 => createMagicBlockForWait s
-  | _ => .ok s      -- Share, Wait: no phase function registered
+  match lookup ZChain.Generated.C38.phaseFuncs p with
+  | some name => phaseFnByName name s
+  | none => .ok s      -- no phase function registered (Share, Wait)
 
 /-- `RestartDKG`. -/
 def restartDKG (s : State) (pn : PN) : State × PN :=
@@ -293,24 +309,22 @@ def Pool.reloaded (p : Pool) : Pool := ⟨p.nodes, []⟩
 /-- ... and after a second round trip (only `NodesMap` is serialised). -/
 def Pool.reloaded2 (_ : Pool) : Pool := ⟨[], []⟩
 
-/-- the view-change part of `payFees` for the block of round `s.round`, followed by sealing the block
-(`lastRound`, next round). `none` = the transaction fails or panics (no state change besides the round). -/
-def payFees (s : State) : Option State :=
+/-- the view-change part of `payFees` for the block of round `s.round` (then `gn.LastRound`).
+`.err` = the transaction fails (its state changes are discarded), `.panic` = a Go panic inside the contract. -/
+def payFees (s : State) : Res State :=
   match setPhaseNode s (getPhaseNode s) with
-  | none => none
+  | none => .panic
   | some s1 =>
     match adjustViewChange s1 with
-    | none => none
+    | none => .panic
     | some s2 =>
-      let s3r : Option State :=
-        if s2.round = s2.viewChange then
-          match s2.mb with
-          | none => none            -- "can't set magic block": payFees fails
-          | some mb => some { s2 with gnPrev := some { mb with miners := mb.miners.reloaded2, sharders := mb.sharders.reloaded2 } }
-        else some s2
-      match s3r with
-      | none => none
-      | some s3 => some { s3 with lastRound := s3.round }
+      if s2.round = s2.viewChange then
+        match s2.mb with
+        | none => .err            -- "can't set magic block": payFees fails
+        | some mb =>
+          .ok { s2 with gnPrev := some { mb with miners := mb.miners.reloaded2, sharders := mb.sharders.reloaded2 },
+                        lastRound := s2.round }
+      else .ok { s2 with lastRound := s2.round }
 
 def nextRound (s : State) : State := { s with round := s.round + 1 }
 
@@ -328,17 +342,28 @@ def contributeMpk (s : State) (sender : Nat) (size : Nat) (payloadId : Option Na
     if mpks.contains key then .error .dup
     else .ok { s with mpks := some (mpks ++ [key]) }
 
-/-- `shareSignsOrShares` from `sender` with `count` entries whose validation (against the MPK registered under the
-payload's id, which must exist) gives `valid`. -/
-def shareSignsOrShares (s : State) (sender : Nat) (count : Nat) (valid : Bool) : Except Err State :=
+inductive SosRes where
+  | ok (s : State)
+  | error (e : Err)
+  /-- nil dereference in `ShareOrSigns.Validate` (chaincore/block/sos.go:65, `mpks.Mpks[sos.ID].Mpk` with no MPK under
+  the payload's id), in the goroutine `Chain.ExecuteSmartContract` starts: the process dies. -/
+  | crash
+
+/-- `shareSignsOrShares` from `sender`: `count` share entries taken from the DKG registered under the payload's id
+`owner`; `valid` = what `ShareOrSigns.Validate` answers for them when that MPK exists. -/
+def shareSignsOrShares (s : State) (sender : Nat) (count : Nat) (valid : Bool) (owner : Nat) : SosRes :=
   if (getPhaseNode s).phase ≠ pPublish then .error .phase
   else
     let gsos := s.gsos.getD []
     if gsos.contains sender then .error .dup
     else if (count : Int) < s.dkg.k - 1 then .error .few
-    else if s.mpks.isNone then .error .other
-    else if !valid then .error .invalid
-    else .ok { s with gsos := some (gsos ++ [sender]) }
+    else
+      match s.mpks with
+      | none => .error .other
+      | some mpks =>
+        if count ≥ 1 ∧ !mpks.contains owner then .crash
+        else if !valid then .error .invalid
+        else .ok { s with gsos := some (gsos ++ [sender]) }
 
 /-- `wait` from `sender`. -/
 def wait (s : State) (sender : Nat) : Except Err State :=
